@@ -76,7 +76,8 @@ def gen_perfect_powers(rng, tier_, ncases, insts, calls, direct):
         route = rng.choice(["api", "libmp"]) if kind != "root" else rng.choice(["api_n", "libmp", "libmp"])
         cid = "pp%05d_%s" % (i, kind)
         call = {"fn": kind, "regime": "perfect_power", "n": n, "prec": prec, "rnd": rnd, "route": route,
-                "args": [enc_arg(x)], "root_bits": qb, "rnd_class": "nearest" if rnd == "n" or route == "api_n" else "directed"}
+                "args": [enc_arg(x)], "root_bits": qb, "rnd_class": "nearest" if rnd == "n" or route == "api_n" else "directed",
+                "n_class": "n>20" if n > 20 else "n<=20"}
         try:
             xm = mk_mpf(mp, x)
             if route == "api":
@@ -262,6 +263,8 @@ def gen_table(rng, tier_, insts, calls, direct):
                     insts.append(atoms_instance(cid, atoms, negs, meta={"fn": fn, "regime": "special_value", "call": cid,
                                                                        "clause": "%s*pi, mode %s" % (c, rnd)}))
                 else:
+                    if isinstance(want, int) and want and (abs(want) >> ((want & -want).bit_length() - 1)).bit_length() > prec:
+                        continue                      # the exact value is not representable at this precision
                     exp_t = {0: fzero, 1: fone, -1: fnone, INF: finf, NINF: fninf, NAN: fnan}.get(want) or from_int(want)
                     if tuple(t) != tuple(exp_t):
                         calls[cid] = call
